@@ -494,8 +494,20 @@ pub trait TxOps: Send {
 }
 pub trait RxOps: Send {
     type RF: Future<Output = Option<u64>>;
+    type ST: futures_core::Stream<Item = u64> + futures_core::stream::FusedStream;
     fn receive(&self) -> Self::RF;
     fn try_receive(&self) -> Result<u64, TryReceiveError>;
+    /// turns the receiving end into a stream (the shared flavour consumes the handle)
+    fn into_stream(self) -> Self::ST;
+}
+
+/// `stream.next()` without the futures crate: one item of a pinned stream as a future.
+pub struct NextItem<'s, S>(pub Pin<&'s mut S>);
+impl<'s, S: futures_core::Stream> Future for NextItem<'s, S> {
+    type Output = Option<S::Item>;
+    fn poll(mut self: Pin<&mut Self>, cx: &mut Context<'_>) -> Poll<Self::Output> {
+        self.0.as_mut().poll_next(cx)
+    }
 }
 
 pub struct BorrowedEnd<'a, M: RawMutex, A: RingBuf<Item = u64>>(&'a GenericChannel<M, u64, A>);
@@ -519,11 +531,15 @@ impl<'a, M: RawMutex + Sync, A: RingBuf<Item = u64> + Send> TxOps for BorrowedEn
 }
 impl<'a, M: RawMutex + Sync, A: RingBuf<Item = u64> + Send> RxOps for BorrowedEnd<'a, M, A> {
     type RF = futures_intrusive::channel::ChannelReceiveFuture<'a, M, u64>;
+    type ST = futures_intrusive::channel::ChannelStream<'a, M, u64, A>;
     fn receive(&self) -> Self::RF {
         self.0.receive()
     }
     fn try_receive(&self) -> Result<u64, TryReceiveError> {
         self.0.try_receive()
+    }
+    fn into_stream(self) -> Self::ST {
+        self.0.stream()
     }
 }
 impl<M: RawMutex + Send + Sync + 'static, A: RingBuf<Item = u64> + Send + 'static> TxOps for futures_intrusive::channel::shared::GenericSender<M, u64, A> {
@@ -544,11 +560,15 @@ impl<M: RawMutex + Send + Sync + 'static, A: RingBuf<Item = u64> + Send + 'stati
 }
 impl<M: RawMutex + Send + Sync + 'static, A: RingBuf<Item = u64> + Send + 'static> RxOps for futures_intrusive::channel::shared::GenericReceiver<M, u64, A> {
     type RF = futures_intrusive::channel::shared::ChannelReceiveFuture<M, u64>;
+    type ST = futures_intrusive::channel::shared::SharedStream<M, u64, A>;
     fn receive(&self) -> Self::RF {
         futures_intrusive::channel::shared::GenericReceiver::receive(self)
     }
     fn try_receive(&self) -> Result<u64, TryReceiveError> {
         futures_intrusive::channel::shared::GenericReceiver::try_receive(self)
+    }
+    fn into_stream(self) -> Self::ST {
+        futures_intrusive::channel::shared::GenericReceiver::into_stream(self)
     }
 }
 
@@ -602,6 +622,7 @@ fn wl_mpmc_inner<TX: TxOps, RX: RxOps>(
     let producers_left = AtomicU64::new(producers as u64);
     let cancelled = AtomicU64::new(0);
     let completed = AtomicU64::new(0);
+    let stream_bad = AtomicU64::new(0);
     let mut logs: Vec<Vec<LogEv>> = vec![];
     let mut verdict = Verdict::Finished;
     // (buffered, parked receiver tasks, parked sender tasks, closed)
@@ -609,7 +630,7 @@ fn wl_mpmc_inner<TX: TxOps, RX: RxOps>(
     std::thread::scope(|s| {
         let mut hs = vec![];
         for i in 0..n {
-            let (producers_left, cancelled, completed, run) = (&producers_left, &cancelled, &completed, run.clone());
+            let (producers_left, cancelled, completed, stream_bad, run) = (&producers_left, &cancelled, &completed, &stream_bad, run.clone());
             let tx = if i < producers { txs.pop() } else { None };
             let rx = if i >= producers { rxs.pop() } else { None };
             hs.push(s.spawn(move || {
@@ -672,6 +693,48 @@ fn wl_mpmc_inner<TX: TxOps, RX: RxOps>(
                     // a bounded number of attempts with random cancellation, then they leave - possibly
                     // right after abandoning a notified receive, so that nobody is left to rescue a strand.
                     let steady = i == producers;
+                    if steady && seed % 3 == 0 {
+                        // The steady consumer reads through a stream in every third run (op 5): items until the
+                        // stream ends; afterwards it must report terminated and keep returning None (C17).
+                        use futures_core::stream::{FusedStream, Stream};
+                        let mut stream = Box::pin(rx.into_stream());
+                        let mut ended = false;
+                        while !run.abort.load(Relaxed) {
+                            let how = if rng.below(3) == 0 { Drive::Repoll(1) } else { Drive::Block };
+                            let term_before = stream.is_terminated();
+                            let done = log!(lg, run, i, 5u8, how_code(how), {
+                                let o = drive(&run, i, NextItem(stream.as_mut()), how, 1);
+                                drive_stats(cancelled, completed, &o);
+                                match o {
+                                    Outcome::Ready(Some(v)) => (false, v + 1),
+                                    Outcome::Ready(None) => {
+                                        ended = true;
+                                        (true, 0)
+                                    }
+                                    Outcome::Cancelled => (false, 0),
+                                    Outcome::Aborted => (true, 0),
+                                }
+                            });
+                            if term_before {
+                                stream_bad.fetch_add(1, Relaxed);
+                            }
+                            if done {
+                                break;
+                            }
+                        }
+                        if ended {
+                            // terminated exactly from the first None on, and None forever
+                            let w = crate::wakers::waker(1);
+                            let mut cx = Context::from_waker(&w);
+                            let again = stream.as_mut().poll_next(&mut cx);
+                            if !stream.is_terminated() || !matches!(again, Poll::Ready(None)) {
+                                stream_bad.fetch_add(1, Relaxed);
+                            }
+                        }
+                        drop(stream);
+                        leave_worker(&run, i);
+                        return lg;
+                    }
                     let mut attempts = 2 + rng.below(8);
                     loop {
                         if run.abort.load(Relaxed) {
@@ -752,8 +815,12 @@ fn wl_mpmc_inner<TX: TxOps, RX: RxOps>(
     st.absorb(&run, &logs);
     st.cancelled += cancelled.load(Relaxed);
     st.completed += completed.load(Relaxed);
-    let names = ["try_send", "send", "receive", "try_receive", "finish-producer"];
+    let names = ["try_send", "send", "receive", "try_receive", "finish-producer", "stream-next"];
     queues_empty(ctx, "mpmc channel", &mut |v| inspect(v));
+    let sb = stream_bad.load(Relaxed);
+    ctx.check("C17", "stream-terminated-exactly-after-none-and-none-forever", seed % 3 == 0, sb == 0, || {
+        format!("{} times the stream reported terminated before it had returned None, or did not stay terminated / returned something after None", sb)
+    });
     // ledger
     let mut sent: HashMap<u64, u64> = HashMap::new(); // tag -> ret stamp of the send
     let mut sent_call: HashMap<u64, u64> = HashMap::new();
@@ -771,7 +838,7 @@ fn wl_mpmc_inner<TX: TxOps, RX: RxOps>(
                     bad_back += 1;
                 }
             }
-            2 | 3 => {
+            2 | 3 | 5 => {
                 if e.res > 0 {
                     if recv.insert(e.res - 1, (e.call, e.ret, e.task)).is_some() {
                         dup.push(e.res - 1);
